@@ -20,6 +20,7 @@ import itertools
 import logging
 import os
 import tempfile
+import warnings
 
 import numpy as np
 
@@ -701,6 +702,38 @@ def run_entry(entry, d, variant, readonly=False, limit=60):
     return out
 
 
+def container_mismatch_fails(k, n):
+    """mismatched lengths with the cycles given as a Cycles CONTAINER or its iterator (not a label vector): the values / phase
+    array one sample short must be rejected with an error by get_cycle_stat, phase_align and get_control_points alike.
+    returns [(routine, how, message)]"""
+    from emd import cycles
+    d = Data.get(k, n)
+    fails = []
+    ip = d['IP'][:, 0].copy()
+    for how in ('Cycles object', 'Cycles.iterate()'):
+        for routine in ('get_cycle_stat', 'phase_align', 'get_control_points'):
+            for delta in (-1, 16):
+                C = cycles.Cycles(ip)
+                arg = C if how == 'Cycles object' else C.iterate()
+                resize = (lambda v: v[:delta].copy()) if delta < 0 else (lambda v: np.r_[v, v[:delta]].copy())
+                r_ip, r_f, r_x = resize(ip), resize(d['IF'][:, 0]), resize(d['imf'][:, 0])
+                call = {'get_cycle_stat': lambda: cycles.get_cycle_stat(arg, r_f, func=np.mean),
+                        'phase_align': lambda: cycles.phase_align(r_ip, r_f, cycles=arg, npoints=12),
+                        'get_control_points': lambda: cycles.get_control_points(r_x, arg)}[routine]
+                try:
+                    with warnings.catch_warnings():
+                        warnings.simplefilter('ignore')
+                        with common.time_limit(60):
+                            call()
+                except common.Timeout:
+                    continue
+                except Exception:                                       # noqa - rejected: what the property asks for
+                    continue
+                fails.append((routine, how, '%s with the cycles given as a %s over %d samples and a data array of %d samples returned a '
+                              'result instead of rejecting the mismatched lengths' % (routine, how, len(ip), len(ip) + delta)))
+    return fails
+
+
 def check_entry(ctx, entry, k, n, report=True):
     """All C19 clauses for one entry point on signal k.  Returns list of (check, variant, message)."""
     fails = []
@@ -1056,6 +1089,10 @@ def run(ctx):
         for e in ents:
             check_entry(ctx, e, k, nk)
         check_option_reuse(ctx, k, nk)
+        for routine, how, msg in container_mismatch_fails(k, nk)[:1]:
+            ctx.problem('impl-violation', routine, msg, input=dict(check='container-mismatch', signal=k, n=nk, routine=routine, how=how),
+                        tags=dict(entry=routine, clause='mismatch'))
+        ctx.count(('container-mismatch', k, nk), True, 'container-mismatch')
     for k in sorted(set(k for k, _ in sigs))[:1 if ctx.quick() else 4]:
         check_option_layouts(ctx, k)
     ctx.sample(dict(entry='get_next_imf', signal='sin + 1e-3 t (128 samples)', options=dict(energy_thresh=20, stop_method='rilling'),
@@ -1084,6 +1121,10 @@ def replay(rec):
         def problem(self, *a, **k):
             pass
     ctx = Dummy()
+    if i['check'] == 'container-mismatch':
+        f = container_mismatch_fails(i['signal'], i['n'])
+        print(f[:2])
+        return bool(f)
     if i['check'] == 'ensure':
         out, note = impl_ensure(i['which'], i['shapes'])
         print(ENSURE_NAMES[i['which']], i['shapes'], '->', out, note)
